@@ -20,7 +20,7 @@ import (
 
 // ReallocOp is one application call on a client that allocates, closes and allocates again.
 type ReallocOp struct {
-	Op string `json:"op"` // alloc | close | write | sleep
+	Op string `json:"op"`          // alloc | close | write | sleep
 	K  int    `json:"k,omitempty"` // close: which of the sockets created so far (0 = newest), live or already closed
 	N  int    `json:"n,omitempty"`
 }
